@@ -244,27 +244,34 @@ def wrapOp (pre : String) : OpErr → OpErr
 inductive StepRes where
   | ok | err (e : OpErr) | blocked
 
+/-- `BinaryCopyReader.skipHeader` once the signature has been recognised: flags, extension
+    area length, extension area -/
+def binHeaderRest (b : Bin) (s : Inp) : StepRes × Bin × Inp :=
+  match binTake (copySignature.length + 4) b s with
+  | (.blocked, b, s) => (.blocked, b, s)
+  | (.err e, b, s) => (.err e, b, s)
+  | (.ok _, b, s) =>
+    match binTakeLength b s with
+    | (.blocked, b, s) => (.blocked, b, s)
+    | (.err e, b, s) => (.err e, b, s)
+    | (.ok ext, b, s) =>
+      if ext = 4294967295 then
+        (.err (.lib (.base (ascii "unexpected header extension area length"))), b, s)
+      else match binTake ext b s with
+        | (.blocked, b, s) => (.blocked, b, s)
+        | (.err e, b, s) => (.err e, b, s)
+        | (.ok _, b, s) => (.ok, b, s)
+
+def binHeaderCheck (b : Bin) (s : Inp) : StepRes × Bin × Inp :=
+  if b.pending.take copySignature.length ≠ copySignature then (.ok, b, s) else binHeaderRest b s
+
 /-- `BinaryCopyReader.skipHeader` -/
 def binSkipHeader (b : Bin) (s : Inp) : StepRes × Bin × Inp :=
   match binFill copySignature.length (binFuel s) b s with
   | (.blocked, b, s) => (.blocked, b, s)
   | (.err e, b, s) => (.err e, b, s)
-  | (_, b, s) =>
-    if b.pending.take copySignature.length ≠ copySignature then (.ok, b, s)
-    else match binTake (copySignature.length + 4) b s with
-      | (.blocked, b, s) => (.blocked, b, s)
-      | (.err e, b, s) => (.err e, b, s)
-      | (.ok _, b, s) =>
-        match binTakeLength b s with
-        | (.blocked, b, s) => (.blocked, b, s)
-        | (.err e, b, s) => (.err e, b, s)
-        | (.ok ext, b, s) =>
-          if ext = 4294967295 then
-            (.err (.lib (.base (ascii "unexpected header extension area length"))), b, s)
-          else match binTake ext b s with
-            | (.blocked, b, s) => (.blocked, b, s)
-            | (.err e, b, s) => (.err e, b, s)
-            | (.ok _, b, s) => (.ok, b, s)
+  | (.eof, b, s) => binHeaderCheck b s
+  | (.ok, b, s) => binHeaderCheck b s
 
 inductive FieldsRes where
   | ok (vals : List Val) | err (e : OpErr) | blocked | unsupported
@@ -297,6 +304,38 @@ def errFieldCount (ncols nfields : Nat) : Err :=
   .base (ascii "unexpected number of fields, " ++ decNat ncols ++
     ascii " columns are defined but " ++ decNat nfields ++ ascii " fields were given")
 
+/-- `binary.BigEndian.Uint16` of the two bytes `take(2)` returned -/
+def fieldCount (v : Bytes) : Nat := match rd16 v with | some (n, _) => n | none => 0
+
+/-- `BinaryCopyReader.Read` from the field count on -/
+def binRowBody (b : Bin) (s : Inp) : Option BinRes × Bin × Inp :=
+  match binTake 2 b s with
+  | (.blocked, b, s) => (none, b, s)
+  | (.err e, b, s) => (some (.err e), b, s)
+  | (.ok v, b, s) =>
+    if fieldCount v = 65535 then
+      match binFill 1 (binFuel s) b s with
+      | (.blocked, b, s) => (none, b, s)
+      | (.eof, b, s) => (some .eof, b, s)
+      | (.err e, b, s) => (some (.err e), b, s)
+      | (.ok, b, s) =>
+        (some (.err (.lib (.base (ascii "unexpected copy data after the file trailer")))), b, s)
+    else if fieldCount v ≠ b.oids.length then
+      (some (.err (.lib (errFieldCount b.oids.length (fieldCount v)))), b, s)
+    else match binFields b.oids b s with
+      | (.blocked, b, s) => (none, b, s)
+      | (.unsupported, b, s) => (some (.err .pgxDec), b, { s with unsup := true })
+      | (.err e, b, s) => (some (.err e), b, s)
+      | (.ok vals, b, s) => (some (.row vals), b, s)
+
+/-- `BinaryCopyReader.Read` after the header: the stream may end between two rows -/
+def binRowStart (b : Bin) (s : Inp) : Option BinRes × Bin × Inp :=
+  match binFill 2 (binFuel s) b s with
+  | (.blocked, b, s) => (none, b, s)
+  | (.err e, b, s) => (some (.err e), b, s)
+  | (.eof, b, s) => if b.pending.isEmpty then (some .eof, b, s) else binRowBody b s
+  | (.ok, b, s) => binRowBody b s
+
 /-- `BinaryCopyReader.Read`; `none` = blocked -/
 def binRead (b : Bin) (s : Inp) : Option BinRes × Bin × Inp :=
   let hdr : StepRes × Bin × Inp :=
@@ -304,32 +343,7 @@ def binRead (b : Bin) (s : Inp) : Option BinRes × Bin × Inp :=
   match hdr with
   | (.blocked, b, s) => (none, b, s)
   | (.err e, b, s) => (some (.err (wrapOp "unexpected header: " e)), b, s)
-  | (.ok, b, s) =>
-    match binFill 2 (binFuel s) b s with
-    | (.blocked, b, s) => (none, b, s)
-    | (.err e, b, s) => (some (.err e), b, s)
-    | (fr, b, s) =>
-      let atEof := match fr with | .eof => true | _ => false
-      if atEof && b.pending.isEmpty then (some .eof, b, s)
-      else match binTake 2 b s with
-        | (.blocked, b, s) => (none, b, s)
-        | (.err e, b, s) => (some (.err e), b, s)
-        | (.ok v, b, s) =>
-          let fields := match rd16 v with | some (n, _) => n | none => 0
-          if fields = 65535 then
-            match binFill 1 (binFuel s) b s with
-            | (.blocked, b, s) => (none, b, s)
-            | (.eof, b, s) => (some .eof, b, s)
-            | (.err e, b, s) => (some (.err e), b, s)
-            | (.ok, b, s) =>
-              (some (.err (.lib (.base (ascii "unexpected copy data after the file trailer")))), b, s)
-          else if fields ≠ b.oids.length then
-            (some (.err (.lib (errFieldCount b.oids.length fields))), b, s)
-          else match binFields b.oids b s with
-            | (.blocked, b, s) => (none, b, s)
-            | (.unsupported, b, s) => (some (.err .pgxDec), b, { s with unsup := true })
-            | (.err e, b, s) => (some (.err e), b, s)
-            | (.ok vals, b, s) => (some (.row vals), b, s)
+  | (.ok, b, s) => binRowStart b s
 
 /-! ### running a handler program -/
 
